@@ -848,9 +848,9 @@ class FourierTransformBase(Operator):
         # Need to filter out this situation since the pre-processing step
         # casts to complex otherwise, and then no half-complex transform
         # is possible.
-        if self.halfcomplex and not self.shifts[-1]:
-            raise ValueError('`shift` must be `True` in the halved (last) '
-                             'axis in half-complex transforms')
+        if self.halfcomplex and not all(self.shifts):
+            raise ValueError('`shift` must be `True` in all axes in '
+                             'half-complex transforms')
 
         # Storing temporaries directly as arrays
         tmp_r = kwargs.pop('tmp_r', None)
